@@ -243,15 +243,27 @@ def defaultsOrdered {V : Type} : List (String × Option V) → Bool
   | (_, none) :: rest => defaultsOrdered rest
   | (_, some _) :: rest => rest.all (fun p => p.2.isSome)
 
-/-- `_compile_init(names, defaults)`; `splice v` is the value denoted by the text `f"{v!r}"`
-    (`none` when that text does not compile / evaluate) -/
+/-- the parameter list text `name` / `name=<spliced default>`; `splice v` is the value denoted by the text
+    `f"{v!r}"` (`none` when that text does not compile / evaluate) -/
+def spliceParams {V : Type} (splice : V → Option V) (defaults : KW V) :
+    List String → Except Err (List (String × Option V))
+  | [] => .ok []
+  | n :: ns =>
+    match spliceParams splice defaults ns with
+    | .error e => .error e
+    | .ok rest =>
+      match alookup defaults n with
+      | none => .ok ((n, none) :: rest)
+      | some v => match splice v with
+        | none => .error .compileError
+        | some v' => .ok ((n, some v') :: rest)
+
+/-- `_compile_init(names, defaults)` followed by `exec` of the result -/
 def compileInit {V : Type} (splice : V → Option V) (names : List String) (defaults : KW V) :
     Except Err (GenInit V) :=
-  let ps : List (String × Option (Option V)) :=
-    names.map (fun n => (n, (alookup defaults n).map splice))
-  if ps.any (fun p => p.2 == some none) then .error .compileError
-  else
-    let params := ps.map (fun p => (p.1, p.2.join))
+  match spliceParams splice defaults names with
+  | .error e => .error e
+  | .ok params =>
     if !defaultsOrdered params then .error .compileError
     else .ok { params := params, setters := names.map (fun n => (n, n)) }
 
